@@ -95,4 +95,19 @@ MUTANTS = [
     ("C06", FM + ".format_agp", FM, 'STRAND_STR = "?", "+", "-"', 'STRAND_STR = "+", "?", "-"'),
     ("C06", FM + ".format_agp", FM, "str(p + row.length),", "str(p + row.length - 1),"),
     ("C06", FM + ".format_agp", FM, '            file.write("\\n")\n\n\ndef format_tpf', '            pass\n\n\ndef format_tpf'),
+    # C04: the indexing pass
+    ("C04", FI + ".index_fasta_file", FI, "scffld.add_row(Fragment(name, start + 1, end, 1))", "scffld.add_row(Fragment(name, start, end, 1))"),
+    ("C04", FI + ".index_fasta_file", FI, "gap_length = start - prev[1]", "gap_length = start - prev[0]"),
+    ("C04", FI + ".index_fasta_file", FI, "if rem := seq_length - prev[1]:", "if rem := seq_length - prev[1] - 1:"),
+    ("C04", FI + ".index_fasta_file", FI, "seq_length += len(seq_bytes)", "seq_length = len(seq_bytes)"),
+    ("C04", FI + ".index_fasta_file", FI, "line_end_bytes = 2 if line[-2] == 13 else 1", "line_end_bytes = 1"),
+    ("C04", FI + ".index_fasta_file", FI, "file_offset = fh.tell()", "file_offset = fh.tell() - 1"),
+    ("C04", FI + ".index_fasta_file", FI, "residues_per_line + line_end_bytes,", "residues_per_line + 1,"),
+    ("C04", FI + ".index_fasta_file", FI, "if idx_dict.get(name):", "if False:"),
+    ("C04", FI + ".index_fasta_file", FI, "start = seq_length + m.start()", "start = m.start()"),
+    ("C04", FI + ".index_fasta_file", FI, "if start == region_end:", "if region_end is not None and start - region_end <= 1:"),
+    ("C04", FI + ".index_fasta_file", FI, "            prev = region\n", "            prev = (start, start)\n"),
+    ("C04", FI + ".index_fasta_file", FI, "scffld.add_row(Gap(rem, \"scaffold\"))", "scffld.add_row(Gap(rem, \"contig\"))"),
+    ("C13", FI + ".index_fasta_file", FI, "if seq_buffer.tell() > buffer_size:", "if seq_buffer.tell() > 2 * buffer_size:"),
+    ("C04", FI + ".index_fasta_file", FI, "                residues_per_line = 0\n", "                residues_per_line = None\n"),
 ]
